@@ -19,10 +19,11 @@ AREAS = ["Sat"]
 
 ASSUMPTIONS = [
     "the CDCL search itself (watches, 1-UIP analysis, VSIDS heap, reduce_db) is mirrored by the executable model "
-    "Sat.Cdcl (R_trace: same status and same assignments in the same order on every explored input) but no "
-    "forall-input theorem is proved about that mirror (design items cdcl_returns_models / cdcl_infeasible_sound / "
-    "cdcl_fuel_suffices are open): the implementation's answers are judged per input by the verified checkers and "
-    "by the proved reference DPLL",
+    "Sat.Cdcl (R_trace: same status and same assignments in the same order on every explored input); proved about "
+    "that mirror for all inputs and parameters: every returned assignment passes evalCnf (cdcl_returns_models_partial, "
+    "inputs without repeated literals in a clause); still open: distinctness, cdcl_infeasible_sound, "
+    "cdcl_fuel_suffices, and that the mirror's give-up exits (fuel, post-conditions of analyze) never fire - so the "
+    "implementation's answers are in addition judged per input by the verified checkers and the proved reference DPLL",
     "heapq modelled as 'pop the least (-activity, var) entry'; VSIDS activities are IEEE doubles on both sides",
     "termination ('the solver always comes back') is observed as a wall-clock limit per call in a worker process "
     "(5 s for inputs that take milliseconds, 20 s for the budgeted hard families; a timeout is re-run alone with "
@@ -490,8 +491,8 @@ def judge(case, out, reply):
                     "solution_limit": lim}
     # --- R_trace: the CDCL mirror returns the same status and the same assignments in the same order
     m_status, m_sol, m_nsols, eq_single, eq_multi = mirror[:5]
-    if m_status == "FUEL":
-        raise core.Infra(f"CDCL mirror ran out of fuel on {case}")
+    if m_status in ("FUEL", "GUARD"):
+        raise core.Infra(f"CDCL mirror gave up ({m_status}: fuel exhausted / analyze sanity check failed) on {case}")
     same = (m_status == st and eq_single and eq_multi and (m_nsols is None) == (r["solutions"] is None))
     if not same and tdiv is None:
         tdiv = {"relation": "Sat.Cdcl mirror returns the same (status, solution, solutions)",
@@ -656,7 +657,10 @@ def shrink_case(ctx, prop, case, klass, rounds=40):
 def run_prop(ctx, prop, budget, weights, n_quick):
     ctx.cov["rule"] = RULE
     ctx.cov.setdefault("cert_checked_impl", 0)
-    ctx.cov["missing_theorems"] = ["cdcl_returns_models [S]", "cdcl_infeasible_sound [S]", "cdcl_fuel_suffices [S]"]
+    ctx.cov["missing_theorems"] = ["cdcl_returns_models [S] (proved: cdcl_returns_models_partial - every assignment the "
+                                   "mirror returns passes evalCnf, for inputs without repeated literals in a clause; open: "
+                                   "repeated literals, pairwise distinctness, the mirror's FUEL/GUARD exits never fire)",
+                                   "cdcl_infeasible_sound [S]", "cdcl_fuel_suffices [S]"]
     first = list(edge_cases()) + [c["case"] for c in core.load_corpus("C01")] + [c["case"] for c in core.load_corpus("C02")]
     for c in first:
         c.setdefault("family", "corpus")
@@ -668,13 +672,13 @@ def run_prop(ctx, prop, budget, weights, n_quick):
         chunks = [list(scope_cases(ctx.rng, 3, 3, 3, 2)), list(scope_cases(ctx.rng, 4, 4, 3, 1, cap=25_000))]
     else:
         chunks = [list(scope_cases(ctx.rng, 3, 3, 3, 1, cap=4000))]
-    n = n_quick if budget <= 1 else 5000 * budget  # quick 16000, thorough 60000, extended search 6x / 3x of that
+    n = n_quick if budget <= 1 else 5000 * budget  # quick 12000, thorough 60000, extended search 6x / 3x of that
     per = 1500
     for k in range(0, n, per):
         chunks.append(generate(ctx.rng, min(per, n - k), ctx.tier, weights))
     # a small first chunk, so that a badly broken tree (calls that never return) is reported quickly
     chunks = [chunks[0][:300], chunks[0][300:]] + chunks[1:]
-    deadline = ctx.t0 + (75 if ctx.tier == "quick" else 700) * (1.5 if searching else 1)
+    deadline = ctx.t0 + (45 if ctx.tier == "quick" else 700) * (1.5 if searching else 1)
     for ch in chunks:
         if time.time() > deadline:
             ctx.notes.append(f"stopped early: time budget used up after {ctx.cov['evaluations']} cases "
